@@ -10,7 +10,8 @@ any edge with ValueError):
   * a second problem line is rejected; a format other than 'edge' is rejected;
   * on normal return the graph exists, has the declared number of vertices, and exactly as many edge lines were read - each
     accepted by add_edge - as the problem line declares (a text with fewer or more edge lines is rejected).
-Left to the bounded tier: that the integers are the ones written in the text, the other three formats.
+_kthlist_parse, the tokenizer behind the three KTH adjacency-list readers, is proved in the same way (see below).
+Left to the bounded tier: that the integers are the ones written in the text, the KTH readers on top of the tokenizer, the matrix format.
 """
 G = 'cnfgen/graphs.py'
 
@@ -33,5 +34,20 @@ CONTRACTS = {
         'locals': {'G': 'optobj:GraphRd'},
         'loops': {0: {'inv': INV}},
         'ensures': ['result is not None', 'result.n == final("n")', 'result.nadd == final("m")', 'final("m") == final("m_cnt")'],
+    },
+    # the tokenizer of the KTH adjacency-list formats (all three graph kinds read through it): only ValueError escapes; the vertex
+    # count (>= 0) is yielded exactly once and before any adjacency line; every adjacency line yielded has its vertex in 1..size and
+    # all listed neighbours in 1..size (the closing 0 removed); a text without a vertex count is rejected
+    (G, '_kthlist_parse'): {
+        'property': ['C14', 'C18'],
+        'params': {'inputfile': 'textfile'},
+        'raises': {'ValueError': None},
+        'loops': {0: {'inv': ['size >= -1', 'implies(size < 0, _y0 == 0 and _y1 == 0)', 'implies(size >= 0, _y0 == 1)']}},
+        'yields_at': {
+            0: ['yielded[0] >= 0', '_y0 == 0', '_y1 == 0'],
+            1: ['1 <= yielded[0]', 'yielded[0] <= size', 'size >= 0',
+                'forall(lambda j: implies(0 <= j and j < len(yielded[1]), 1 <= yielded[1][j] and yielded[1][j] <= size))'],
+        },
+        'ensures': ['final("size") >= 0', 'final("_y0") == 1'],
     },
 }
